@@ -936,6 +936,12 @@ def _big_case(ctx: Ctx, dsa, ec, rc, name: str, hname: str, arm: str, rnd: int, 
             ctx.classes["big:recover-all"] += 1
             if o3[0] == "raise" or Q not in [tuple(P) for P in o3[1]]:
                 ctx.violation("recover-all-misses-signer-key", f"recover_pub_keys_ -> {o3[1]!r}", {**case, "sig": (sig.r, sig.s)})
+            # the hashing spelling answers what the prepared one answers on hf(msg)
+            o4 = outcome(dsa.recover_pub_keys, msg, sig, hf)
+            ctx.classes["big:recover-all:hashing-entry"] += 1
+            if o3[0] == "ok" and (o4[0] == "raise" or [tuple(P) for P in o4[1]] != [tuple(P) for P in o3[1]]):
+                ctx.violation("recover-all-hashing-entry-differs", f"recover_pub_keys(msg) -> {o4[1]!r}, recover_pub_keys_(hf(msg)) -> {o3[1]!r}",
+                              {**case, "sig": (sig.r, sig.s)})
 
     # ---- imposed nonce
     kcl = ["one", "two", "n-1", "uniform", "uniform"][it % 5]
